@@ -831,3 +831,154 @@ Theorem C03_event_nonvacuous :
   executed_eth_event toy_hash toy_recover ex_cfg nonce_after_creation ex_state ex_event_history 0 1 (toy_addr 42) 6%N.
 Proof. exact ex_event_outcomes. Qed.
 Print Assumptions C03_event_nonvacuous.
+
+(** ** The message as it travels: Data, and the self-reported Hash and From
+
+    A MsgEthereumTx carries its TxData and two texts that whoever builds the
+    Cosmos envelope writes: [Hash] and [From].  The validation binds Hash to
+    Data (ValidateBasic recomputes it from the conversion of Data) and demands an
+    empty From; who a message is authenticated as, the nonce compared with the
+    sequence, and what executes are functions of Data alone, computed afresh at
+    every use -- no step remembers a message seen earlier in the process.
+    Hence a message built from an executed (or merely validated) transaction
+    -- nonce set to the account's current sequence, value / recipient / gas
+    changed, the old signature values kept, the Hash text of the original or
+    of any other transaction, a From text naming the victim -- is refused,
+    alone or inside a multi-message transaction, whatever happened before. *)
+
+(** The claims cannot choose the account: for given Data at most one (Hash, From)
+    pair passes, and the account is the same whatever is claimed. *)
+Theorem C03_msg_claims_cannot_choose :
+  forall (hash : list N -> list N) (recover : list N -> Z -> Z -> Z -> option (list N)) (cfg : chain_cfg)
+         (st : list N -> N) (d : tx_data) (h f h' f' : string) (a a' : list N),
+    auth_emsg hash recover cfg st (mk_emsg d h f) = Some a ->
+    auth_emsg hash recover cfg st (mk_emsg d h' f') = Some a' -> a = a' /\ h = h' /\ f = f'.
+Proof. exact emsg_claims_cannot_choose. Qed.
+Print Assumptions C03_msg_claims_cannot_choose.
+
+(** A Cosmos transaction containing a message whose Hash text is not the hash of
+    its own Data is refused as a whole, without effect -- for every state, every
+    other message beside it, every verdict of the other checks. *)
+Theorem C03_msg_forged_hash_rejected :
+  forall (hash : list N -> list N) (recover : list N -> Z -> Z -> Z -> option (list N)) (cfg : chain_cfg)
+         (st : list N -> N) (ms : list emsg) (ok : bool) (m : emsg) (tx : eth_tx),
+    In m ms -> as_tx m = Some tx -> m_hash m <> hash_hex (tx_hash hash tx) ->
+    step_emsg_tx hash recover cfg st (ms, ok) = (st, None).
+Proof. exact emsg_tx_forged_hash_rejected. Qed.
+Print Assumptions C03_msg_forged_hash_rejected.
+
+(** ... and so is one containing a message with a From text. *)
+Theorem C03_msg_forged_from_rejected :
+  forall (hash : list N -> list N) (recover : list N -> Z -> Z -> Z -> option (list N)) (cfg : chain_cfg)
+         (st : list N -> N) (ms : list emsg) (ok : bool) (m : emsg),
+    In m ms -> m_from m <> EmptyString -> step_emsg_tx hash recover cfg st (ms, ok) = (st, None).
+Proof. exact emsg_tx_forged_from_rejected. Qed.
+Print Assumptions C03_msg_forged_from_rejected.
+
+(** At most once over ALL histories of transactions of messages, whatever the
+    messages claim. *)
+Theorem C03_msg_each_nonce_once :
+  forall (hash : list N -> list N) (recover : list N -> Z -> Z -> Z -> option (list N)) (cfg : chain_cfg)
+         (h : list (list emsg * bool)) (st : list N -> N) (j k j' k' : nat) (a : list N) (n : N),
+    executed_emsg hash recover cfg st h j k a n -> executed_emsg hash recover cfg st h j' k' a n -> j = j' /\ k = k'.
+Proof. exact emsg_tx_each_nonce_once. Qed.
+Print Assumptions C03_msg_each_nonce_once.
+
+(** On messages as FromEthereumTx writes them the machine of messages is the
+    machine of transactions: all theorems of the Ethereum route apply. *)
+Theorem C03_msg_canonical_is_tx_machine :
+  forall (hash : list N -> list N) (recover : list N -> Z -> Z -> Z -> option (list N)) (cfg : chain_cfg)
+         (st : list N -> N) (ms : list emsg) (txs : list eth_tx) (ok : bool),
+    Forall2 (fun m tx => as_tx m = Some tx /\ claims_ok hash m tx = true) ms txs ->
+    step_emsg_tx hash recover cfg st (ms, ok) = step_eth_tx hash recover cfg st (txs, ok).
+Proof. exact emsg_tx_canonical. Qed.
+Print Assumptions C03_msg_canonical_is_tx_machine.
+
+(** Message [k] of an accepted transaction executes on behalf of [a] only if
+    its Hash text is the hash of its Data, its From text is empty, the nonce
+    in its Data is [a]'s sequence at that point, and -- premises as in
+    [C03_accepted_only_if_signed_partial] -- [a]'s key holder signed exactly the
+    content of its Data. *)
+Theorem C03_msg_executes_only_signed_data_partial :
+  forall (hash : list N -> list N) (recover : list N -> Z -> Z -> Z -> option (list N)) (cfg : chain_cfg)
+         (signed : list N -> Z -> eth_tx -> Prop)
+         (st : list N -> N) (ms : list emsg) (ok : bool) (l : list (list N)) (k : nat) (m : emsg) (a : list N),
+    (forall (h : list N) (r s v : Z) (a : list N), recover h r s v = Some a ->
+       exists (cid0 : Z) (tx0 : eth_tx), signed a cid0 tx0 /\ hash (sign_preimage cid0 tx0) = h) ->
+    (forall cid1 tx1 cid2 tx2, hash (sign_preimage cid1 tx1) = hash (sign_preimage cid2 tx2) ->
+       sign_preimage cid1 tx1 = sign_preimage cid2 tx2) ->
+    (forall a cid0 tx0, signed a cid0 tx0 -> signable cid0 tx0) ->
+    snd (step_emsg_tx hash recover cfg st (ms, ok)) = Some l -> nth_error ms k = Some m -> nth_error l k = Some a ->
+    exists tx, as_tx m = Some tx /\ m_hash m = hash_hex (tx_hash hash tx) /\ m_from m = EmptyString /\
+               tx_nonce tx = (st a + N.of_nat (count_occ (list_eq_dec N.eq_dec) (firstn k l) a))%N /\
+               (signable (c_eip155 cfg) tx ->
+                exists cid0 tx0, signed a cid0 tx0 /\ signed_content_of cid0 tx0 = signed_content_of (c_eip155 cfg) tx).
+Proof. exact emsg_executes_only_signed_data_partial. Qed.
+Print Assumptions C03_msg_executes_only_signed_data_partial.
+
+(** A message whose Data has a content nobody ever signed poisons the whole
+    Cosmos transaction, whatever its Hash and From texts claim. *)
+Theorem C03_msg_unsigned_data_rejected_partial :
+  forall (hash : list N -> list N) (recover : list N -> Z -> Z -> Z -> option (list N)) (cfg : chain_cfg)
+         (signed : list N -> Z -> eth_tx -> Prop)
+         (st : list N -> N) (ms : list emsg) (ok : bool) (m : emsg) (tx' : eth_tx),
+    (forall (h : list N) (r s v : Z) (a : list N), recover h r s v = Some a ->
+       exists (cid0 : Z) (tx0 : eth_tx), signed a cid0 tx0 /\ hash (sign_preimage cid0 tx0) = h) ->
+    (forall cid1 tx1 cid2 tx2, hash (sign_preimage cid1 tx1) = hash (sign_preimage cid2 tx2) ->
+       sign_preimage cid1 tx1 = sign_preimage cid2 tx2) ->
+    (forall a cid0 tx0, signed a cid0 tx0 -> signable cid0 tx0) ->
+    In m ms -> as_tx m = Some tx' -> signable (c_eip155 cfg) tx' ->
+    (forall a cid0 tx0, signed a cid0 tx0 -> signed_content_of cid0 tx0 <> signed_content_of (c_eip155 cfg) tx') ->
+    step_emsg_tx hash recover cfg st (ms, ok) = (st, None).
+Proof. exact emsg_unsigned_data_rejected_partial. Qed.
+Print Assumptions C03_msg_unsigned_data_rejected_partial.
+
+(** The recorded form of the correspondence run: a unit whose Hash text is not
+    bound to its Data, or whose From text is not empty, makes the whole event be
+    refused without effect; with both facts true it is the plain Ethereum unit. *)
+Theorem C03_sub_forged_rejected :
+  forall (nd : node) (st : N -> N) (ms : list sub) (ok : bool) (hash_bound from_empty prot : bool) (c : Z) (n : N) (r : option N),
+    In (SEthMsg hash_bound from_empty prot c n r) ms -> hash_bound && from_empty = false ->
+    step_sub_event nd st (ESub (Direct ms ok)) = (st, None).
+Proof. exact sub_event_forged_rejected. Qed.
+Print Assumptions C03_sub_forged_rejected.
+
+Theorem C03_sub_canonical_msg :
+  forall (nd : node) (st : N -> N) (prot : bool) (c : Z) (n : N) (r : option N),
+    auth_sub nd st (SEthMsg true true prot c n r) = auth_sub nd st (SEth prot c n r).
+Proof. exact sub_ethmsg_canonical. Qed.
+Print Assumptions C03_sub_canonical_msg.
+
+(** NOT the code of /repo: a process-wide memo "Hash text -> converted
+    transaction" consulted by the self-reported Hash before Data is converted
+    ([step_memo]) -- T executes; then a message whose Data is T with the nonce
+    set to the account's new sequence (Data from which no account is recovered)
+    under the Hash text of T executes T a second time for the account.  The
+    machine of the code refuses that message. *)
+Theorem C03_memo_replays_refuted :
+  exists (hash : list N -> list N) (recover : list N -> Z -> Z -> Z -> option (list N)) (cfg : chain_cfg)
+         (st : list N -> N) (m1 m2 : emsg) (a : list N) (T T2 : eth_tx),
+    outcomes_memo hash recover cfg (st, []) [(m1, true); (m2, true)] = [Some (a, T); Some (a, T)] /\
+    as_tx m1 = Some T /\ as_tx m2 = Some T2 /\ T2 <> T /\ sender hash recover (c_eip155 cfg) T2 = None /\
+    outcomes_emsg_tx hash recover cfg st [([m1], true); ([m2], true)] = [Some [a]; None].
+Proof. exact memo_replays_refuted. Qed.
+Print Assumptions C03_memo_replays_refuted.
+
+(** Non-vacuity: T (executes); T's Data re-nonced under T's Hash text; the same
+    with the Hash recomputed; the genuine next transaction under T's Hash text;
+    with a From text; beside a forged replay; as it should be (executes); T again. *)
+Theorem C03_msg_nonvacuous :
+  from_eth_tx toy_hash no_csum ex_T = Some (ex_msg ex_T) /\
+  as_tx ex_forged_replay = Some (renonce ex_T 6) /\
+  outcomes_emsg_tx toy_hash toy_recover ex_cfg ex_state ex_forged_history
+  = [Some [toy_addr 42]; None; None; None; None; None; Some [toy_addr 42]; None] /\
+  seq_of (final_emsg_tx toy_hash toy_recover ex_cfg ex_state ex_forged_history) = (7%N, 0%N).
+Proof. exact ex_forged_outcomes. Qed.
+Print Assumptions C03_msg_nonvacuous.
+
+Theorem C03_msg_forged_premises_nonvacuous :
+  as_tx ex_forged_replay = Some (renonce ex_T 6) /\
+  m_hash ex_forged_replay <> hash_hex (tx_hash toy_hash (renonce ex_T 6)) /\
+  step_emsg_tx toy_hash toy_recover ex_cfg ex_state ([ex_forged_replay], true) = (ex_state, None).
+Proof. exact ex_forged_premises. Qed.
+Print Assumptions C03_msg_forged_premises_nonvacuous.
